@@ -236,7 +236,7 @@ def Schema.unambiguous (S : Schema) : Bool :=
   S.structs.all S.structOK && S.dyns.all S.dynOK
     && S.structs.all (fun d => d.fields.all S.fieldEncOK)
     -- an object travels under its own default tag, right after an attribute list (Export, Import)
-    && S.objects.all (fun p => (S.dyn p.2).defTag != T.attr)
+    && S.objects.all (fun p => !([T.attr, T.replaceExisting, T.keyWrapType].contains (S.dyn p.2).defTag))
 
 /-! ## 3. Conformance and normalisation, as one executable walk over value and schema -/
 
